@@ -20,7 +20,7 @@ def overflowError : Exn := ⟨"OverflowError".toList, [.Exception]⟩
 /-- `IPCError` as it was on the pinned tree: an `Exception` that no `except` clause named -/
 def pinnedIpcError : Exn := ⟨"IPCError".toList, [.Exception]⟩
 
-def tsRequest : Request := ⟨[⟨"a".toList, "timestamp[s]".toList, false, .unreadable overflowError⟩], 1, true⟩
+def tsRequest : Request := ⟨[⟨"a".toList, "timestamp[s]".toList, false, .unreadable overflowError⟩], 1, true, none⟩
 
 /-- the big `try` of the HTTP sites on the pinned tree, as seen by an exception that is an instance of none of the
 classes of its 400 tuple (`ArrowInvalid, TypeError, StopIteration, RpcError, VersionError`): that clause is skipped -/
@@ -38,7 +38,7 @@ example : (propagate overflowError [pinnedHttpTry]).1 = .http 200 true := by dec
 example : readRequest tsRequest = .error (rpcError, .noPythonValue "a".toList) := by rfl
 
 /-- pinned (no handler around the validating read): an invalid batch raises `IPCError`, which escapes / is a 200+marker -/
-example : readRequestWith [] readWrap ⟨[], 1, false⟩ = .error (ipcError, .invalidBatch) := by rfl
+example : readRequestWith [] readWrap ⟨[], 1, false, none⟩ = .error (ipcError, .invalidBatch) := by rfl
 example : (propagate pinnedIpcError [pinnedPipeReadTry]).1 = .escaped := by decide
 example : (propagate pinnedIpcError [pinnedHttpTry]).1 = .http 200 true := by decide
 
